@@ -363,3 +363,22 @@ mod tests {
         }
     }
 }
+
+#[cfg(raptorq_verif)]
+pub mod verif_tables {
+    pub fn oct_exp() -> &'static [u8; 510] {
+        &super::OCT_EXP
+    }
+    pub fn oct_log() -> &'static [u8; 256] {
+        &super::OCT_LOG
+    }
+    pub fn octet_mul() -> &'static [[u8; 256]; 256] {
+        &super::OCTET_MUL
+    }
+    pub fn octet_mul_hi() -> &'static [[u8; 32]; 256] {
+        &super::OCTET_MUL_HI_BITS
+    }
+    pub fn octet_mul_low() -> &'static [[u8; 32]; 256] {
+        &super::OCTET_MUL_LOW_BITS
+    }
+}
